@@ -288,8 +288,9 @@ def run_c05(tier):
 
 # ------------------------------------------------------------------ C06 / C07 / C09 (rationals)
 
-P_ABS = [0, 1, 2, 3, 4, 6, 9, (1 << 32) - 1, 1 << 32, (1 << 32) + 1, (1 << 64) + 1, 6 * ((1 << 32) - 1)]
-Q_SET = [1, 2, 3, 4, 6, 9, (1 << 32) - 1, 1 << 32, 3 * (1 << 32)]
+P_ABS = [0, 1, 2, 3, 4, 6, 9, (1 << 32) - 1, 1 << 32, (1 << 32) + 1, (1 << 64) + 1, 6 * ((1 << 32) - 1),
+         (1 << 64) - 1, (1 << 64) + (1 << 32) - 1]            # the last one has limbs [2^32-1, 0, 1]
+Q_SET = [1, 2, 3, 4, 6, 9, (1 << 32) - 1, 1 << 32, 3 * (1 << 32), (1 << 32) + 1, (1 << 64) + (1 << 32) - 1]
 
 
 def rat_alphabet(tier):
